@@ -30,6 +30,85 @@ func runC06(c *core.Ctx) {
 	c.Rule("R06.5", "what is at an entry's path is examined without following links (validator, healer, bowl)")
 	ruleNoFollow(c, "R06.5", "/pwr", "/pwr/bowl")
 	ruleWoundsAreOwnedByTheMessage(c, "R05.7")
+	c.Rule("R16.7", "no wound is sent before the consumer goroutine was started (shared with C16)")
+	ruleConsumerStartedFirst(c)
+	c.Rule("R06.6", "a queued file is copied whole from the archive into the target, for the same index")
+	ruleHiddenSubtrees(c, "R06.7")
+	if ho := c.P.Fn("pwr", "ArchiveHealer.healOne"); ho == nil {
+		c.Missing("R06.6", "pwr.(*ArchiveHealer).healOne", "not found")
+	} else {
+		var idx *ssa.Parameter
+		for _, p := range ho.Params {
+			if bt, ok := p.Type().Underlying().(*types.Basic); ok && bt.Kind() == types.Int64 {
+				idx = p
+			}
+		}
+		var rdCall, wrCall *ssa.Call
+		core.Instrs(ho, func(in ssa.Instruction) {
+			cl, ok := in.(*ssa.Call)
+			if !ok || !cl.Call.IsInvoke() || len(cl.Call.Args) != 1 || idx == nil || cl.Call.Args[0] != ssa.Value(idx) {
+				return
+			}
+			switch cl.Call.Method.Name() {
+			case "GetReader", "GetReadSeeker":
+				rdCall = cl
+			case "GetWriter":
+				wrCall = cl
+			}
+		})
+		c.Check(rdCall != nil && wrCall != nil, "R06.6", core.FnName(ho), "reader and writer are opened for the file index that was queued", ho.Pos(),
+			"sourcePool.GetReader(fileIndex) and targetPool.GetWriter(fileIndex)", "healOne does not open both the archive entry and the target file for the index it was given")
+		isCopy := func(in ssa.Instruction) bool {
+			cl, ok := in.(*ssa.Call)
+			if !ok {
+				return false
+			}
+			n := core.CalleeName(cl)
+			var dst, src ssa.Value
+			switch {
+			case (n == "ctxcopy.Do" || n == "ctxcopy.DoBuffer") && len(cl.Call.Args) >= 3:
+				dst, src = cl.Call.Args[1], cl.Call.Args[2]
+			case (n == "io.Copy" || n == "io.CopyBuffer") && len(cl.Call.Args) >= 2:
+				dst, src = cl.Call.Args[0], cl.Call.Args[1]
+			default:
+				return false
+			}
+			fromRd := rdCall != nil && extractOf(src, rdCall, 0)
+			// the destination is the writer, possibly wrapped by a counting writer built from it
+			toWr := false
+			var walk func(v ssa.Value, d int)
+			walk = func(v ssa.Value, d int) {
+				if d > 4 || toWr {
+					return
+				}
+				for _, o := range core.Origins(v) {
+					if wrCall != nil && extractOf(o, wrCall, 0) {
+						toWr = true
+					}
+					if w, ok := o.(*ssa.Call); ok {
+						for _, a := range w.Call.Args {
+							walk(a, d+1)
+						}
+					}
+				}
+			}
+			walk(dst, 0)
+			return fromRd && toWr
+		}
+		n := 0
+		for _, rs := range successReturns(ho) {
+			n++
+			p := core.FindPath(ho, nil, isInstr(rs.Ret), isCopy)
+			c.Check(p == nil, "R06.6", core.FnName(ho), "success only after the copy from the archive entry into the target file", core.InstrPos(rs.Ret),
+				"every path to this success return copies the reader into the writer", "healOne can report success without having copied the archive entry into the target file (a shortcut for some files): the file stays damaged").Path = c.P.PathStrings(p)
+			for _, cp := range allInstrs(ho, isCopy) {
+				p2 := ungatedPath(ho, cp.(*ssa.Call), rs.Ret, nil)
+				c.Check(p2 == nil, "R06.6", core.FnName(ho), "the copy's error is not dropped", core.InstrPos(cp),
+					"success is reachable from the copy only through its nil outcome (or returns its error)", "healOne reports success although the copy failed").Path = c.P.PathStrings(p2)
+			}
+		}
+		c.Floor("R06.6", "success returns of healOne", n, 1)
+	}
 	c.Rule("R06.1", "wound kinds emitted ⊆ kinds handled by the healer")
 	c.Rule("R06.2", "Lstat/Readlink errors in the dir/symlink passes are returned only after testing not-exist AND not-a-directory")
 	c.Rule("R06.3", "repair actions of the DIR / SYMLINK / FILE cases")
@@ -341,7 +420,7 @@ func runC06(c *core.Ctx) {
 			after := true
 			if !before {
 				for _, rs := range successReturns(repair) {
-					if core.FindPath(repair, sendInstr, isInstr(rs.Ret), isMark) != nil {
+					if core.FindPathSkipping(repair, sendInstr, isInstr(rs.Ret), isMark, notThisSelectCase(sel)) != nil {
 						after = false
 					}
 				}
@@ -453,4 +532,43 @@ func fixturesNoFollow(fc *core.Ctx) map[string]bool {
 		}
 	}
 	return rep
+}
+
+// notThisSelectCase removes, for a select statement with one send case, the edges taken when another case
+// fired: what follows "the send happened" is only what follows that case.
+func notThisSelectCase(sel *ssa.Select) func(from, to *ssa.BasicBlock) bool {
+	if sel == nil {
+		return nil
+	}
+	sendIdx := -1
+	for i, st := range sel.States {
+		if st.Dir == types.SendOnly {
+			sendIdx = i
+		}
+	}
+	return func(from, to *ssa.BasicBlock) bool {
+		if len(from.Instrs) == 0 || len(from.Succs) != 2 {
+			return false
+		}
+		iff, ok := from.Instrs[len(from.Instrs)-1].(*ssa.If)
+		if !ok {
+			return false
+		}
+		bo, ok := iff.Cond.(*ssa.BinOp)
+		if !ok || bo.Op != token.EQL {
+			return false
+		}
+		ex, ok := bo.X.(*ssa.Extract)
+		if !ok || ex.Tuple != ssa.Value(sel) || ex.Index != 0 {
+			return false
+		}
+		k, isC := core.ConstInt(bo.Y)
+		if !isC {
+			return false
+		}
+		if int(k) == sendIdx {
+			return to == from.Succs[1]
+		}
+		return to == from.Succs[0]
+	}
 }
